@@ -777,3 +777,123 @@ func TestVerif_C04_Repetitive(t *testing.T) {
 		Rule: "a corpus of one synthetic document over a vocabulary of 6-24 words that repeats its own word runs (copy-pasted runs of 2-8 words), thresholds 0.5-0.8; input = the document with deletions, OOV insertions, substitutions and inserted runs, in noise; Match is repeated 25 times on the same classifier and on separately built instances, with tracing switched on and off in between: all calls identical; non-trivial = a license match is reported",
 		New:  func() interface{} { return &c04Rep{} }, Gen: c04RepGen, Check: c04RepCheck})
 }
+
+// ------------------------------------------------------------------ nested documents
+
+// Corpus documents that are contained in other corpus documents (a license whose last paragraph is a corpus header,
+// a notice that is one line of a license ...): the candidates overlap, tie or contain each other, so any decision that
+// depends on the order in which the corpus map is visited shows up as run-to-run differences.
+type c04Nest struct {
+	Thr    float64  `json:"thr"`
+	Lines  [][]int  `json:"lines"`  // the big document: word indices per line
+	Smalls [][2]int `json:"smalls"` // further documents: line ranges [from,to] of the big one
+	Input  int      `json:"input"`  // 0 verbatim, 1 behind a line of other words, 2 one word replaced, 3 followed by a line of other words
+	Sub    int      `json:"sub"`
+	Times  int      `json:"times"`
+}
+
+func c04NestWord(k int) string {
+	return fmt.Sprintf("nw%c%c", 'a'+byte(k%26), 'a'+byte((k/26)%26))
+}
+
+func c04NestGen(t *rapid.T) interface{} {
+	c := &c04Nest{Thr: lib.PickFloat(t, []float64{0.5, 0.7, 0.8, 0.8, 0.9, 1.0}, "thr"), Times: 30, Input: lib.Weighted(t, []int{55, 15, 15, 15}, "input"), Sub: lib.IntN(t, 0, 500, "sub")}
+	nl := lib.IntN(t, 2, 8, "nlines")
+	for i := 0; i < nl; i++ {
+		c.Lines = append(c.Lines, lib.Ints(t, 5, 14, 0, 59, "line"))
+	}
+	ns := lib.IntN(t, 1, 3, "nsmalls")
+	for i := 0; i < ns; i++ {
+		var a, b int
+		switch lib.Weighted(t, []int{40, 25, 35}, "which") {
+		case 0:
+			a, b = nl-1, nl-1
+		case 1:
+			a, b = 0, 0
+		default:
+			a = lib.IntN(t, 0, nl-1, "from")
+			b = a + lib.IntN(t, 0, 1, "more")
+			if b > nl-1 {
+				b = nl - 1
+			}
+		}
+		c.Smalls = append(c.Smalls, [2]int{a, b})
+	}
+	return c
+}
+
+func c04NestCheck(ci interface{}) lib.Outcome {
+	c := ci.(*c04Nest)
+	if len(c.Lines) < 1 || len(c.Lines) > 40 || len(c.Smalls) > 8 || !(c.Thr > 0 && c.Thr <= 1) {
+		return lib.Outcome{Skip: "malformed"}
+	}
+	text := func(from, to int) string {
+		var sb strings.Builder
+		for l := from; l <= to; l++ {
+			for i, w := range c.Lines[l] {
+				if i > 0 {
+					sb.WriteByte(' ')
+				}
+				sb.WriteString(c04NestWord(((w % 60) + 60) % 60))
+			}
+			sb.WriteByte('\n')
+		}
+		return sb.String()
+	}
+	files := []corpusFile{{Cat: "License", Name: "Big", Variant: "license.txt", Content: []byte(text(0, len(c.Lines)-1))}}
+	for i, s := range c.Smalls {
+		if s[0] < 0 || s[1] < s[0] || s[1] >= len(c.Lines) {
+			return lib.Outcome{Skip: "malformed"}
+		}
+		files = append(files, corpusFile{Cat: []string{"Header", "License", "Supplement"}[i%3], Name: fmt.Sprintf("Small%d", i), Variant: "header.txt", Content: []byte(text(s[0], s[1]))})
+	}
+	in := text(0, len(c.Lines)-1)
+	switch c.Input {
+	case 1:
+		in = "zzqa zzqb zzqc zzqd zzqe\n" + in
+	case 2:
+		f := strings.Fields(in)
+		k := c.Sub % len(f)
+		in = strings.Replace(in, f[k], "zzsub", 1)
+	case 3:
+		in = in + "zzqa zzqb zzqc zzqd zzqe\n"
+	}
+	build := func(rot int) *Classifier {
+		cl := NewClassifier(c.Thr)
+		for i := range files {
+			f := files[(i+rot)%len(files)]
+			cl.AddContent(f.Cat, f.Name, f.Variant, f.Content)
+		}
+		return cl
+	}
+	cl := build(0)
+	first := cl.Match([]byte(in))
+	fs := resultString(first)
+	times := c.Times
+	if times < 2 || times > 200 {
+		times = 30
+	}
+	for k := 1; k < times; k++ {
+		cc := cl
+		if k%3 == 0 {
+			cc = build(k / 3)
+		}
+		got := cc.Match([]byte(in))
+		if s := resultString(got); s != fs {
+			return lib.Outcome{Violation: fmt.Sprintf("threshold %v, corpus: Big = %q and %d documents that are line ranges %v of it, input kind %d: call %d differs from call 1\n%s", c.Thr, files[0].Content, len(c.Smalls), c.Smalls, c.Input, k+1, diffResults(first, got))}
+		}
+	}
+	lic := len(licensesOnly(rawList(first)))
+	classes := []string{fmt.Sprintf("input-kind-%d", c.Input)}
+	if lic > 1 {
+		classes = append(classes, "several-nested-matches-reported")
+	}
+	return lib.Outcome{Nontrivial: lic > 0, Classes: classes, FP: fmt.Sprintf("%v|%v|%v|%d|%d", c.Thr, c.Lines, c.Smalls, c.Input, c.Sub),
+		Sample: map[string]interface{}{"threshold": c.Thr, "lines": len(c.Lines), "nested_documents": c.Smalls, "input_kind": c.Input, "result": fmtRecs(rawList(first))}}
+}
+
+func TestVerif_C04_Nested(t *testing.T) {
+	lib.Run(t, lib.Spec{ID: "C04", Part: "nested-documents",
+		Rule: "a corpus of one synthetic document of 2-8 lines and 1-3 further documents that are line ranges of it (preferably its last or first line); input = the big document verbatim / behind or before a line of other words / with one word replaced; Match is repeated 30 times on the same classifier and on separately built instances with rotated insertion order: all calls identical; non-trivial = a license match is reported",
+		New:  func() interface{} { return &c04Nest{} }, Gen: c04NestGen, Check: c04NestCheck})
+}
